@@ -26,7 +26,7 @@ func init() {
 
 func c08(r *Run) {
 	w := r.W
-	ro := rolesOf(w)
+	ro := r.roles()
 	px := protoEffects(w)
 	kF := ro.kFlushing
 	flush := w.MustFn("(*connection).flush")
@@ -59,7 +59,7 @@ func c08(r *Run) {
 		r.obW("C08.R1:flush-under-lock:"+siteKey(w, site), "flush() runs only under the flushing lock", fn, site, wit, "Held(flushing)")
 	}
 	if nFl < 2 {
-		broken("ANCHOR-LOST C08: flush() has %d call sites", nFl)
+		r.absentf(" C08: flush() has %d call sites", nFl)
 	}
 	for _, fn := range w.Funcs {
 		if fn.Signature.Recv() == nil || !isPointerToNamed(fn.Signature.Recv().Type(), "connection") {
@@ -117,7 +117,7 @@ func c08(r *Run) {
 		}
 	}
 	if nRet < 3 {
-		broken("ANCHOR-LOST C08: flush() has %d returns", nRet)
+		r.absentf(" C08: flush() has %d returns", nRet)
 	}
 	for _, site := range callSitesOf(w, rw2r) {
 		fn := site.Parent()
